@@ -124,3 +124,63 @@ def schedule_from_sizes(data, sizes, polls=(), close=True, first_immediately=Tru
     if close:
         sched.append(('close',))
     return sched
+
+
+class FeedBytesIO(io.BytesIO):
+    """A non-blocking stream built the way the library's own test suite builds one: an io.BytesIO subclass
+    (so the library's BytesIO fast paths apply) that holds all the octets but hands out only those that
+    have `arrived`; read() -> None when nothing has arrived yet and the input is still open, b'' once closed."""
+
+    def __init__(self, data, avail=0):
+        io.BytesIO.__init__(self, bytes(data))
+        self.avail = avail
+        self.ended = False
+
+    def arrive_n(self, n):
+        self.avail = min(len(self.getbuffer()), self.avail + n)
+
+    def close_input(self):
+        self.ended = True
+
+    def read(self, size=-1):
+        left = self.avail - self.tell()
+        if size is None or size < 0 or size > left:
+            size = left
+        if size == 0 and left == 0:
+            return b'' if self.ended else None
+        return io.BytesIO.read(self, size)
+
+
+def drive_feed(decoder_mod, data, sizes, spec=None, close=True, polls=(), max_steps=100000, **options):
+    """retry loop over a FeedBytesIO: one arrival (or an empty poll) after each reported underrun"""
+    st = FeedBytesIO(data, 0)
+    plan = []
+    for k, sz in enumerate(sizes):
+        plan.append(('arrive', sz))
+        if k in polls: plan.append(('poll',))
+    if close: plan.append(('close',))
+    kw = dict(options)
+    if spec is not None: kw['asn1Spec'] = spec
+    events, steps = [], 0
+    it = iter(decoder_mod.StreamingDecoder(st, **kw))
+    while True:
+        steps += 1
+        if steps > max_steps:
+            return events, ('err', '(ECrash RuntimeError)', 'does not terminate')
+        try:
+            x = next(it)
+        except StopIteration:
+            return events, 'stop'
+        except RecursionError:
+            return events, ('err', '(ECrash RecursionError)', 'RecursionError')
+        except Exception as e:
+            return events, ('err', I.err_class(e), '%s: %s' % (type(e).__name__, str(e)[:200]))
+        if isinstance(x, error.SubstrateUnderrunError) or x is None:
+            events.append('U')
+            if not plan:
+                return events, 'exhausted'
+            ev = plan.pop(0)
+            if ev[0] == 'arrive': st.arrive_n(ev[1])
+            elif ev[0] == 'close': st.close_input()
+        else:
+            events.append(('obj', x, st.tell()))
